@@ -69,6 +69,9 @@ TypePriceOf(s, tx) ==
      [] tx.type = "SetCandidateOn" -> PT(s).SetCandidateOn
      [] tx.type = "SetCandidateOff" -> PT(s).SetCandidateOff
      [] tx.type = "SetHaltBlock" -> PT(s).SetHaltBlock
+     [] tx.type = "DeclareCandidacy" -> PT(s).DeclareCandidacy
+     [] tx.type = "EditCandidate" -> PT(s).EditCandidate
+     [] tx.type = "EditCandidateCommission" -> PT(s).EditCandidateCommission
      [] tx.type = "VoteUpdate" -> PT(s).VoteUpdate
      [] OTHER -> Zero
 PriceFor(s, tx) == tx.gasPrice ** (TypePriceOf(s, tx) ++ (Nat2A(tx.bytes) ** PT(s).PayloadByte))
